@@ -237,6 +237,9 @@ impl Options {
   /// The alignment must be a power of 2.
   /// The default maximum alignment is `8`.
   ///
+  /// A memory map is only aligned to the page size, so a memory map backed ARENA cannot be created
+  /// or opened (`InvalidInput`) with a maximum alignment larger than the page size.
+  ///
   /// ## Example
   ///
   /// ```
